@@ -4,13 +4,8 @@
 // ASSUME: GALOIS_FORCE_STANDALONE (the repository's own switch) routes FixedSizeAllocator to malloc; the Galois heaps are C09's subject
 // ASSUME: ONE worker thread operates on the worklist (chunk hand-off between workers, the executor and the abort path are separate obligations); pool configuration 0 = 1 thread, 1 = 2 threads on 2 sockets with the worker being thread 1, 2 = 2 threads on 1 socket with the worker being thread 1; the worklist object is constructed on thread 0 as for_each_impl does
 // ASSUME: operation KINDS are enumerated as separate solver queries (vf_param); item values are solver variables in 0..3; --max-field-sensitivity-array-size 300 lets CBMC track the 256-byte per-thread blocks per byte (otherwise pointers stored there are never constant-propagated)
-// OB: ob_wl_chunkfifo tier=quick solver=cadical unwind=32 timeout=120 cbmc="--max-field-sensitivity-array-size 300" params=6,1 bounds="ChunkFIFO<2>: 6 kind sequences of 5..7 ops from {push(v), push(range of 2), pop, flush} (table SEQ_F), then pops until empty + 2 more; values symbolic in 0..3; 1 thread" desc="pop returns only pending items, each once; an empty pop means nothing is pending (nothing stranded in a private chunk); after draining nothing comes back"
-// OB: ob_wl_chunklifo tier=quick solver=cadical unwind=32 timeout=120 cbmc="--max-field-sensitivity-array-size 300" params=6,1 bounds="ChunkLIFO<2>: as ob_wl_chunkfifo" desc="work conservation, one worker"
-// OB: ob_wl_pschunkfifo tier=quick solver=cadical unwind=32 timeout=120 cbmc="--max-field-sensitivity-array-size 300" params=6,2 bounds="PerSocketChunkFIFO<2>: table SEQ_F x pool configuration {1 thread; 2 threads on 2 sockets, worker = thread 1}" desc="work conservation, one worker"
-// OB: ob_wl_pschunklifo tier=quick solver=cadical unwind=32 timeout=120 cbmc="--max-field-sensitivity-array-size 300" params=6,2 bounds="PerSocketChunkLIFO<2>: as ob_wl_pschunkfifo" desc="work conservation, one worker"
-// OB: ob_wl_pschunkbag tier=quick solver=cadical unwind=32 timeout=120 cbmc="--max-field-sensitivity-array-size 300" params=6,2 bounds="PerSocketChunkBag<2>: as ob_wl_pschunkfifo" desc="work conservation, one worker"
-// OB: ob_wl_ptchunkfifo tier=quick solver=cadical unwind=32 timeout=120 cbmc="--max-field-sensitivity-array-size 300" params=5,3 bounds="PerThreadChunkFIFO<2>: 5 kind sequences of 5..6 ops from {push(v), push(range of 2), pop} (table SEQ_N) x pool configuration {1 thread; 2 threads/2 sockets; 2 threads/1 socket (steal attempts on the idle peer)}" desc="work conservation, one worker"
-// OB: ob_wl_ptchunklifo tier=quick solver=cadical unwind=32 timeout=120 cbmc="--max-field-sensitivity-array-size 300" params=5,3 bounds="PerThreadChunkLIFO<2>: as ob_wl_ptchunkfifo" desc="work conservation, one worker"
+// OB: ob_wl_chunk tier=quick solver=cadical unwind=32 timeout=120 cbmc="--max-field-sensitivity-array-size 300" params=6,2 bounds="ChunkFIFO<2>, ChunkLIFO<2>, PerSocketChunkFIFO<2>, PerSocketChunkLIFO<2>, PerSocketChunkBag<2> (one after the other in each query): 6 kind sequences of 5..7 ops from {push(v), push(range of 2), pop, flush} (table SEQ_F), then pops until empty + 2 more; values symbolic in 0..3; pool configuration {1 thread; 2 threads on 2 sockets, worker = thread 1}" desc="pop returns only pending items, each once; an empty pop means nothing is pending (nothing stranded in a private chunk, also after flush); after draining nothing comes back"
+// OB: ob_wl_ptchunk tier=quick solver=cadical unwind=32 timeout=120 cbmc="--max-field-sensitivity-array-size 300" params=5,3 bounds="PerThreadChunkFIFO<2>, PerThreadChunkLIFO<2>: 5 kind sequences of 5..6 ops from {push(v), push(range of 2), pop} (table SEQ_N) x pool configuration {1 thread; 2 threads/2 sockets; 2 threads/1 socket (steal attempts on the idle peer)}" desc="work conservation, one worker"
 #include "C01_wl_common.h"
 #include "galois/worklists/Chunk.h"
 #include "galois/worklists/PerThreadChunk.h"
@@ -30,13 +25,8 @@ struct Ops<galois::worklists::internal::ChunkMaster<T, QT, D, S, CS, C>> {
 } // namespace c01
 
 using namespace galois::worklists;
-#define TAB_F(WL) c01::conserve_table<WL>(c01::SEQ_F, sizeof(c01::SEQ_F) / c01::SEQLEN)
-#define TAB_N(WL) c01::conserve_table<WL>(c01::SEQ_N, sizeof(c01::SEQ_N) / c01::SEQLEN)
-OB(wl_chunkfifo) { TAB_F(ChunkFIFO<2>); }
-OB(wl_chunklifo) { TAB_F(ChunkLIFO<2>); }
-OB(wl_pschunkfifo) { TAB_F(PerSocketChunkFIFO<2>); }
-OB(wl_pschunklifo) { TAB_F(PerSocketChunkLIFO<2>); }
-OB(wl_pschunkbag) { TAB_F(PerSocketChunkBag<2>); }
-OB(wl_ptchunkfifo) { TAB_N(PerThreadChunkFIFO<2>); }
-OB(wl_ptchunklifo) { TAB_N(PerThreadChunkLIFO<2>); }
-
+using namespace galois::worklists;
+OB(wl_chunk) {
+  c01::conserve_table<ChunkFIFO<2>, ChunkLIFO<2>, PerSocketChunkFIFO<2>, PerSocketChunkLIFO<2>, PerSocketChunkBag<2>>(c01::SEQ_F, 6);
+}
+OB(wl_ptchunk) { c01::conserve_table<PerThreadChunkFIFO<2>, PerThreadChunkLIFO<2>>(c01::SEQ_N, 5); }
